@@ -648,9 +648,66 @@ def w_resend_fifo(item, rep):
                     rep.violation("%s/resend-fifo:ret-%s:%d-deep" % (pid, "False-though-acked" if heard else "True-though-failed", depth), what, rd)
 
 
+def w_send_fifo(item, rep):
+    """send() after 1..3 write(write_only=True) calls whose payloads still wait in the TX FIFO (CE was never raised):
+    the call terminates within the bound of the retry configuration and does not raise; when the FIFO was full (3 deep)
+    send() is documented to flush it first, so its result is the truth about its own payload and the peer receives
+    exactly that payload"""
+    seed, pid, tx_cls, rx_cls = item
+    for arc in (0, 1, 3):
+        for depth in (1, 2, 3):
+            for heard in (True, False):
+                for send_only in (False, True):
+                    fc = mk_fc(arc, 250, 0, "plain", False, True, tx_cls, rx_cls)
+                    w, a, ra, b, rb = build(fc, seed)
+                    w.activate()
+                    pls = [payload(seed, k) for k in range(depth)]
+                    own = payload(seed, 7)
+                    if not heard:
+                        b.listen = False
+                    w.advance(300 * US)
+                    acc = [a.write(p, write_only=True) for p in pls]
+                    mark = len(w.airlog)
+                    w.horizon = w.now + 200 * MS
+                    exc = None
+                    try:
+                        ret = a.send(own, send_only=send_only)
+                    except Abort:
+                        ret, exc = None, "Abort"
+                    except HarnessError:
+                        raise
+                    except Exception as e:  # noqa
+                        ret, exc = None, type(e).__name__
+                    if exc != "Abort":
+                        w.advance(20 * MS)
+                    air = [p for p in w.airlog[mark:] if p.src is ra and not p.is_ack]
+                    got = [d for (_, _, d) in link.drain(b)] if heard and exc != "Abort" else []
+                    rep.case()
+                    rep.transitions += depth + 1
+                    rep.traces += 1
+                    rep.part("send-fifo", executions=1)
+                    rep.outcome("send-fifo:%d-deep:%s:%s" % (depth, "heard" if heard else "deaf", show(ret) if not exc else exc))
+                    rep.nt("send-fifo:%d:%d:%s:%s" % (arc, depth, heard, send_only))
+                    rd = {"part": "send-fifo", "seed": seed, "tx_cls": tx_cls, "rx_cls": rx_cls}
+                    if not all(acc):
+                        raise HarnessError("set-up failed: write() results %r" % (acc,))
+                    what = "arc=%d, %d payload(s) put into the TX FIFO with write(write_only=True), peer %s: send(send_only=%s) %s; on the air: %s; peer read %s" % (
+                        arc, depth, "listening" if heard else "deaf", send_only, ("raised " + exc) if exc else "returned " + show(ret),
+                        [p.payload.hex()[:8] for p in air[:5]] or "nothing", [g.hex()[:8] for g in got])
+                    if exc:
+                        rep.violation("%s/send-fifo:%s:%d-deep" % (pid, "nonterm" if exc == "Abort" else "raises-" + exc, depth), what, rd)
+                    elif depth == 3:
+                        if bool(ret) != heard:
+                            rep.violation("%s/send-fifo:ret-%s:full" % (pid, "False-though-acked" if heard else "True-though-failed"), what, rd)
+                        elif heard and got != [own]:
+                            rep.violation("%s/send-fifo:peer-got-other-than-own-payload:full" % pid, what, rd)
+
+
 def run_faults(tier, seed, rep, tx_cls="full", rx_cls="full", pid=PID, only=None):
     if not only or "resendfifo" in only:
         pmap(w_resend_fifo, [(seed, pid, tx_cls, rx_cls)], rep)
+    if not only or "sendfifo" in only:
+        pmap(w_send_fifo, [(seed, pid, tx_cls, rx_cls)], rep)
     items, strat, bounds = plan(tier, tx_cls, rx_cls)
     work = []
     for fc, hs in items:
@@ -694,10 +751,10 @@ def run(tier, seed, rep, only=None):
 
 
 def replay(data):
-    if data["replay"].get("part") == "resend-fifo":
+    if data["replay"].get("part") in ("resend-fifo", "send-fifo"):
         from ..engine import Report
         r, rp = data["replay"], Report()
-        w_resend_fifo((r["seed"], data.get("property", PID), r["tx_cls"], r["rx_cls"]), rp)
+        (w_resend_fifo if r["part"] == "resend-fifo" else w_send_fifo)((r["seed"], data.get("property", PID), r["tx_cls"], r["rx_cls"]), rp)
         want = data.get("signature")
         return [(s_, v_["what"]) for s_, v_ in rp.violations.items() if want is None or s_ == want]
     return _replay(data)
